@@ -46,6 +46,13 @@ impl BlockFormatter for BlockIndentRemover {
 
         let indent_ofs = match find_prev_line_break_pos(content, bytes, start_byte_pos, true) {
             Some(pos) => start_byte_pos - pos - 1,
+            // A tag on the first line of the file: its column is its offset, if only blanks precede it.
+            None if bytes[..start_byte_pos.min(bytes.len())]
+                .iter()
+                .all(|b| *b == b' ' || *b == b'\t') =>
+            {
+                start_byte_pos
+            }
             None => 0,
         };
         // The removal may end in the middle of a line: step over a whole character, not over one byte.
